@@ -520,6 +520,16 @@ func (s *scriptedRT) RoundTrip(req *http.Request) (*http.Response, error) {
 		return mk(200, "<html>not an address</html>")
 	case "s4xx":
 		return mk(403, "forbidden")
+	case "s429-retry-after":
+		// a client error is a client error, whatever hints its headers carry
+		resp, _ := mk(429, "slow down")
+		resp.Header.Set("Retry-After", "1")
+		return resp, nil
+	case "s4xx-headers":
+		resp, _ := mk([]int{400, 401, 404, 408, 410, 418, 451}[len(host)%7], "no")
+		resp.Header.Set("Retry-After", "0")
+		resp.Header.Set("Location", "https://example.invalid/")
+		return resp, nil
 	case "s5xx-garbage":
 		return mk(503, "service unavailable")
 	}
@@ -538,7 +548,7 @@ func runC18PublicIP(c *fw.Ctx, id string) {
 	}
 	var plans []plan
 	for i, h := range providerHosts {
-		p := plan{errsBefore: []int{0, 0, 1, 1, 7}[r.Intn(5)], terminal: []string{"valid4", "valid6", "valid-ws", "garbage", "s4xx", "s5xx-garbage", "transport", "valid-ws-long", "valid6-expanded", "garbage-ip-prefix", "garbage-long"}[r.Intn(11)]}
+		p := plan{errsBefore: []int{0, 0, 1, 1, 7}[r.Intn(5)], terminal: []string{"valid4", "valid6", "valid-ws", "garbage", "s4xx", "s5xx-garbage", "transport", "valid-ws-long", "valid6-expanded", "garbage-ip-prefix", "garbage-long", "s429-retry-after", "s4xx-headers"}[r.Intn(13)]}
 		p.ip = fmt.Sprintf("192.0.2.%d", 10+i)
 		if p.terminal == "valid6" {
 			p.ip = fmt.Sprintf("2001:db8::%d", 10+i)
